@@ -683,6 +683,17 @@ func c03Run(ctx *vc.Ctx, rep *vc.Report) {
 				}
 			}
 		}
+		// (c1) every seed with 0x40 / 0x80 / 0xC0 OR-ed into each of its first 8 bytes (count and length fields pushed
+		// to where 16-bit arithmetic wraps while their low bits stay consistent with the data present)
+		for _, seed := range s.Seeds {
+			for pos := 0; pos < min(8, len(seed)); pos++ {
+				for _, hi := range []byte{0x40, 0x80, 0xC0} {
+					g := append([]byte(nil), seed...)
+					g[pos] |= hi
+					try(g, nil, true)
+				}
+			}
+		}
 		// (c2) long bodies: every seed padded to 320 bytes, each of its first 8 bytes swept over length-like values
 		// (count and length bytes need enough trailing data to pass the parsers' own checks before they matter)
 		for _, seed := range seedsC {
